@@ -52,6 +52,7 @@ def _check_main(run, P):
     run.do(_pred, run, P)
     run.do(_fields, run, P)
     run.do(_clash, run, P)
+    run.do(_fast_path, run, P)
     run.do(_ids, run, P)
     from .c01 import _alias
     from . import c10 as _c10
@@ -213,6 +214,37 @@ def _fields(run, P):
                    why=f"un-mapped {sorted(bad)} reaches the rebuilt statement: renaming "
                        f"the second method's variables leaves this part pointing at "
                        f"the first method's variable")
+
+
+def _fast_path(run, P):
+    """A path of fuse_two_phases that skips the renaming (it fuses by the id-uniquifying
+    concatenation alone) is taken on the word of a clash test; the names that test looks
+    at are, like pymbolic's own, read u written: a loop identifier is bound, not written."""
+    f = P.func("dagrt.transform.fuse_two_phases")
+    direct = [x for x in ast.walk(f.node) if isinstance(x, ast.Call)
+              and (dotted(x.func) or "").split(".")[-1] == "fuse_statement_streams_with_unique_ids"]
+    if not direct:
+        return
+    m = f.module
+    helpers = {}
+    for x in ast.walk(f.node):
+        if isinstance(x, ast.BinOp) and isinstance(x.op, ast.BitAnd):
+            for side in (x.left, x.right):
+                if isinstance(side, ast.Call) and isinstance(side.func, ast.Name) and side.func.id in m.functions \
+                        and side.args and norm(side.args[0]).endswith(".statements"):
+                    helpers[side.func.id] = m.functions[side.func.id]
+    if not helpers:
+        raise AnalysisError("fuse_two_phases: a path fuses without renaming; the clash test in front of "
+                            "it is not read")
+    for name, h in sorted(helpers.items()):
+        src = ast.unparse(h.node)
+        ok = "get_read_variables()" in src and "get_written_variables()" in src
+        run.ob("C16.clash", h, h.node, ok,
+               construct=f"{name} (names compared before renaming is skipped) collects read u written "
+                         f"variables",
+               why="two methods that only share a loop identifier - or one loops over 'i' and the "
+                   "other keeps a temporary 'i' - pass a test on written names and are fused "
+                   "un-renamed: one method's loop unbinds the other's variable")
 
 
 def _clash(run, P):
